@@ -290,7 +290,9 @@ class ModeBasis(object):
 
         return_mode_basis = False
         if self.is_sparse:
-            if T.shape[-1] != 1:
+            # Only a scalar index selects a single mode; slices, index lists and masks select
+            # a set of modes (possibly of length one), exactly as for a dense mode basis.
+            if isinstance(item, slice) or np.ndim(item) != 0:
                 return_mode_basis = True
         if self.is_dense:
             if T.ndim == self._transformation_matrix.ndim:
